@@ -184,7 +184,7 @@ func replayParams(ctx *core.Ctx, lines []GenLine) (recs []InfoRec, suspect []boo
 			}
 			if row > 1<<16 {
 				// rows of 128 KiB and more (Columns at and around 2^20): a budget per filter family
-				if bigRows[p.family()] >= 40 {
+				if bigRows[p.family()] >= map[string]int{"fl": 12, "cc": 40}[p.family()] {
 					skippedBig++
 					continue
 				}
@@ -848,7 +848,11 @@ func run(ctx *core.Ctx) error {
 		if r.Refused {
 			continue
 		}
-		if ctx.Thorough() || cases[i].Origin == "schedule" || !r.OK || i%4 == 0 {
+		every := 4
+		if strings.HasPrefix(cases[i].Origin, "lzw-sweep") || cases[i].Origin == "ccitt-corpus" {
+			every = 8 // dense sweeps: the harness's comparison finds the failing length, TLC judges it
+		}
+		if ctx.Thorough() || cases[i].Origin == "schedule" || !r.OK || i%every == 0 {
 			sel = append(sel, r)
 			selIdx = append(selIdx, i)
 		} else {
@@ -1049,7 +1053,8 @@ func chainRecord(c *PipeCase, seedChain [][]any, si *streamInfo) ChainRec {
 	if cr.Got == nil {
 		cr.Got = [][]any{}
 	}
-	cr.Exp = append(cr.Exp, seedChain...)
+	// OpenStream's filters encode what the caller writes: they come in front
+	// of the chain the caller's dictionary names (FilterParams.ImplInsert)
 	v := Version(c.Ver)
 	for _, p := range c.Filters {
 		name, dict, err := p.Filter().Info(v)
@@ -1059,6 +1064,7 @@ func chainRecord(c *PipeCase, seedChain [][]any, si *streamInfo) ChainRec {
 		}
 		cr.Exp = append(cr.Exp, []any{string(name), FromDict(dict)})
 	}
+	cr.Exp = append(cr.Exp, seedChain...)
 	return cr
 }
 
@@ -1070,6 +1076,7 @@ type seedCase struct {
 
 var seedDicts = map[string]pdf.Dict{
 	"name":        {"Filter": pdf.Name("ASCIIHexDecode")},
+	"name+empty":  {"Filter": pdf.Name("ASCIIHexDecode"), "DecodeParms": pdf.Dict{}},
 	"name+parms":  {"Filter": pdf.Name("LZWDecode"), "DecodeParms": pdf.Dict{"EarlyChange": pdf.Integer(0)}},
 	"array":       {"Filter": pdf.Array{pdf.Name("ASCIIHexDecode"), pdf.Name("LZWDecode")}},
 	"array+parms": {"Filter": pdf.Array{pdf.Name("ASCIIHexDecode"), pdf.Name("LZWDecode")}, "DecodeParms": pdf.Array{nil, pdf.Dict{"EarlyChange": pdf.Integer(0)}}},
@@ -1077,6 +1084,7 @@ var seedDicts = map[string]pdf.Dict{
 
 var seedChains = map[string][][]any{
 	"name":        {{"ASCIIHexDecode", Dict{}}},
+	"name+empty":  {{"ASCIIHexDecode", Dict{}}},
 	"name+parms":  {{"LZWDecode", Dict{"EarlyChange": Val{T: "int", I: 0}}}},
 	"array":       {{"ASCIIHexDecode", Dict{}}, {"LZWDecode", Dict{}}},
 	"array+parms": {{"ASCIIHexDecode", Dict{}}, {"LZWDecode", Dict{"EarlyChange": Val{T: "int", I: 0}}}},
@@ -1084,7 +1092,7 @@ var seedChains = map[string][][]any{
 
 var appendFilters = []P{{Kind: "ASCII85"}, fl("Flate", 0, 0, 0, 0, false), fl("LZW", 0, 0, 0, 0, false), fl("Flate", 12, 0, 0, 4, false)}
 
-// seededChains: the seeds and append sequences of MC_FilterParams on the real
+// seededChains: the seeds and insert sequences of MC_FilterParams on the real
 // OpenStream (alignment only: the data of such streams is not the caller's).
 func seededChains(ctx *core.Ctx) ([]*seedCase, []ChainRec) {
 	var scs []*seedCase
